@@ -263,6 +263,9 @@ func stackScenarios(which string) []scenario {
 			{{0, "call:add", 1}, {1, "call:read", 1}, {0, "call:add", 2}, {1, "", 0}, {0, "", 0}},
 			{{0, "call:add", 1}, {1, "", 0}, {0, "", 0}},
 		}})
+	// the Addition API step by step: Commit of an Addition without tables must release the lock itself
+	out = append(out, scenario{name: "commitempty|add", setup: base3,
+		scripts: [][]sop{opens(op("commitempty"), op("read")), opens(add(21), op("read"))}})
 	// a multi-table Addition whose second table claims an update index the first already used: must be refused
 	out = append(out, scenario{name: "addmulti-same|add", setup: base3,
 		scripts: [][]sop{opens(sop{kind: "addmulti", tx: 15, same: true}, op("read")), opens(add(21), op("read"))}})
@@ -274,7 +277,49 @@ func stackScenarios(which string) []scenario {
 	return out
 }
 
+// C09's last clause: a retried Add uses "an update index greater than every committed one".
+// A compaction that drops the last tombstones empties tables.list; what index comes next?
+func indexRestartProbe(c *ctx) error {
+	dir := filepath.Join(c.work, "idxrestart")
+	os.MkdirAll(dir, 0755)
+	defer os.RemoveAll(dir)
+	st, err := reftable.NewStack(dir, reftable.Config{})
+	if err != nil {
+		return err
+	}
+	defer st.Close()
+	reftable.VerifSetAutoCompact(st, false)
+	add := func(del bool) error {
+		ui := st.NextUpdateIndex()
+		return st.Add(func(w *reftable.Writer) error {
+			w.SetLimits(ui, ui)
+			r := reftable.RefRecord{RefName: "refs/heads/a", UpdateIndex: ui}
+			if !del {
+				r.Value = make([]byte, 20)
+			}
+			return w.AddRef(&r)
+		})
+	}
+	if err := add(false); err != nil {
+		return err
+	}
+	if err := add(true); err != nil {
+		return err
+	}
+	maxCommitted := st.NextUpdateIndex() - 1
+	if err := st.CompactAll(nil); err != nil {
+		return err
+	}
+	c.emit("idxrestart", "add,delete,compactall", fmt.Sprintf("committed<=%d next=%d tables=%d", maxCommitted, st.NextUpdateIndex(), len(reftable.VerifTableNames(st))))
+	return nil
+}
+
 func runStack(c *ctx, which string) error {
+	if which == "c09" {
+		if err := indexRestartProbe(c); err != nil {
+			return err
+		}
+	}
 	scs := stackScenarios(which)
 	maxPre := 1
 	nrand := 6
